@@ -62,7 +62,7 @@ Fixpoint wp {A} (p : prog A) (Q : A -> own -> Prop) (o : own) : Prop :=
       | QOpenTab _ => (forall f, wp (k (STab f)) Q o) /\ wp (k SNoEnt) Q o
       | QOpenTmp _ => wp (k SOk) Q o /\ wp (k SNoEnt) Q o
       | QCreateTemp => forall t, ~ In t (o_tm o) -> ~ In t (o_dead o) -> wp (k (STmp t)) Q (add_tm t o)
-      | QRenameTmp t _ _ _ => In t (o_tm o) /\ forall n f, wp (k (SNew n f)) Q (kill_tm t o)
+      | QRenameTmp t _ _ _ _ => In t (o_tm o) /\ forall n f, wp (k (SNew n f)) Q (kill_tm t o)
       | QCommitList _ => o_ll o = true /\ wp (k SOk) Q (set_ll false o)
       | QRemove pa =>
           match pa with
@@ -160,24 +160,25 @@ Proof.
     apply neutral_op_bind; [exact I|]. intro r. destruct r; try apply neutral_ret. apply IH.
 Qed.
 
-Lemma neutral_reload : forall attempts reuse old, neutral (reload attempts reuse old).
+Lemma neutral_reload : forall attempts hh reuse old, neutral (reload attempts hh reuse old).
 Proof.
-  induction attempts as [|a IH]; intros reuse old; cbn [reload].
+  induction attempts as [|a IH]; intros hh reuse old; cbn [reload].
   - apply neutral_ret.
   - apply neutral_op_bind; [exact I|]. intro r.
     apply neutral_bind; [apply neutral_open_all|]. intros [m|].
-    + apply neutral_bind; [apply neutral_remove_any|]. intros _. apply neutral_ret.
+    + destruct (same_hash hh m); [|apply neutral_ret].
+      apply neutral_bind; [apply neutral_remove_any|]. intros _. apply neutral_ret.
     + apply neutral_op_bind; [exact I|]. intro r2.
       destruct (names_eqb _ _); [apply neutral_ret|apply IH].
 Qed.
 
-Lemma neutral_open_reload : forall attempts, neutral (open_reload attempts).
+Lemma neutral_open_reload : forall attempts hh, neutral (open_reload attempts hh).
 Proof.
-  induction attempts as [|a IH]; cbn [open_reload].
+  induction attempts as [|a IH]; intro hh; cbn [open_reload].
   - apply neutral_ret.
   - apply neutral_op_bind; [exact I|]. intro r.
     apply neutral_bind; [apply neutral_open_all|]. intros [m|].
-    + apply neutral_ret.
+    + destruct (same_hash hh m); apply neutral_ret.
     + apply neutral_op_bind; [exact I|]. intro r2.
       destruct (names_eqb _ _); [apply neutral_ret|apply IH].
 Qed.
@@ -250,10 +251,10 @@ Proof. intro d. repeat split. Qed.
 
 Ltac fin := unfold final; wpsimpl; repeat split.
 
-Lemma wp_compact_range : forall attempts first last expiry m d,
-  wp (compact_range attempts first last expiry m) (fun _ o => final o) (mk_own false [] [] d).
+Lemma wp_compact_range : forall attempts hh first last expiry m d,
+  wp (compact_range attempts hh first last expiry m) (fun _ o => final o) (mk_own false [] [] d).
 Proof.
-  intros attempts first last expiry m d. unfold compact_range.
+  intros attempts hh first last expiry m d. unfold compact_range.
   destruct (Nat.leb last first && negb expiry); [apply final_mk|].
   wpsimpl. split; [intros _|apply final_mk].
   intro c. destruct (negb (names_eqb _ (mnames m))).
@@ -275,17 +276,17 @@ Proof.
     wpsimpl. split; [reflexivity|fin].
 Qed.
 
-Lemma wp_auto_compact : forall attempts m d,
-  wp (auto_compact attempts m) (fun _ o => final o) (mk_own false [] [] d).
+Lemma wp_auto_compact : forall attempts hh m d,
+  wp (auto_compact attempts hh m) (fun _ o => final o) (mk_own false [] [] d).
 Proof.
-  intros attempts m d. unfold auto_compact. destruct (suggest _) as [[s e]|]; [|apply final_mk].
+  intros attempts hh m d. unfold auto_compact. destruct (suggest _) as [[s e]|]; [|apply final_mk].
   apply wp_bind. eapply wp_mono; [|apply wp_compact_range]. intros a o H. exact H.
 Qed.
 
-Lemma wp_add : forall attempts kind auto m d,
-  wp (add attempts kind auto m) (fun _ o => final o) (mk_own false [] [] d).
+Lemma wp_add : forall attempts hh kind auto m d,
+  wp (add attempts hh kind auto m) (fun _ o => final o) (mk_own false [] [] d).
 Proof.
-  intros attempts kind auto m d. unfold add. wpsimpl. split.
+  intros attempts hh kind auto m d. unfold add. wpsimpl. split.
   2:{ apply wp_bind_neutral; [apply neutral_reload|]. intro rl. apply final_mk. }
   intros _ c. destruct (negb (names_eqb _ (mnames m))).
   { wpsimpl. split; [reflexivity|]. apply wp_bind_neutral; [apply neutral_reload|]. intro rl. apply final_mk. }
@@ -294,8 +295,8 @@ Proof.
       (forall (n : nat) (f : tfile),
        wp (do! _ := op (QRemove (PTmp tmp)) in
            do! _ := op (QCommitList (mnames m ++ [n])) in
-           do! rl := reload attempts true m in
-           if auto then do! m' := auto_compact attempts (fst rl) in Ret (m', ROk) else Ret (fst rl, ROk))
+           do! rl := reload attempts hh true m in
+           if auto then do! m' := auto_compact attempts hh (fst rl) in Ret (m', ROk) else Ret (fst rl, ROk))
           (fun (_ : mem * apires) (o : own) => final o)
           (mk_own true [] [] (tmp :: d)))).
     { split; [left; reflexivity|]. intros n f. wpsimpl. right. split; [left; reflexivity|].
@@ -307,10 +308,10 @@ Proof.
   - wpsimpl. left. split; [left; reflexivity|]. split; [reflexivity|]. fin.
 Qed.
 
-Lemma wp_add_multi : forall attempts tx same m d,
-  wp (add_multi attempts tx same m) (fun _ o => final o) (mk_own false [] [] d).
+Lemma wp_add_multi : forall attempts hh tx same m d,
+  wp (add_multi attempts hh tx same m) (fun _ o => final o) (mk_own false [] [] d).
 Proof.
-  intros attempts tx same m d. unfold add_multi. wpsimpl. split; [|apply final_mk].
+  intros attempts hh tx same m d. unfold add_multi. wpsimpl. split; [|apply final_mk].
   intros _ c. destruct (negb (names_eqb _ (mnames m))).
   { wpsimpl. split; [reflexivity|apply final_mk]. }
   wpsimpl. intros tmp _ _. wpsimpl.
@@ -328,12 +329,12 @@ Proof.
                else
                 do! _ := op (QOpenTab n1) in
                 do! _ := op (QOpenTmp tmp2) in
-                do! nw2 := op (QRenameTmp tmp2 (next_index m + 1) (next_index m + 1) []) in
+                do! nw2 := op (QRenameTmp tmp2 (next_index m + 1) (next_index m + 1) [] hh) in
                 match nw2 with
                 | SNew n2 _ =>
                     do! _ := op (QRemove (PTmp tmp2)) in
                     do! _ := op (QCommitList (mnames m ++ [n1; n2])) in
-                    do! rl := reload attempts true m in
+                    do! rl := reload attempts hh true m in
                     Ret (fst rl, ROk)
                 | _ => do! _ := op (QRemove (PT n1)) in do! _ := op (QRemove PLL) in Ret (m, RErr)
                 end
@@ -345,7 +346,7 @@ Proof.
     intros tmp2 _ Hd2. destruct same.
     - wpsimpl. left. split; [left; reflexivity|]. split; (split; [reflexivity|fin]).
     - wpsimpl.
-      assert (T : forall dd, wp (do! rl := reload attempts true m in Ret (fst rl, ROk))
+      assert (T : forall dd, wp (do! rl := reload attempts hh true m in Ret (fst rl, ROk))
                            (fun (_ : mem * apires) (o : own) => final o) (mk_own false [] [] dd)).
       { intro dd. apply wp_bind_neutral; [apply neutral_reload|]. intro rl. fin. }
       repeat match goal with |- _ /\ _ => split | |- forall _, _ => intro end; try (left; reflexivity);
@@ -364,10 +365,10 @@ Proof.
     apply neutral_op_bind; [exact I|]. intros _. apply IH.
 Qed.
 
-Lemma wp_clean : forall attempts m d,
-  wp (clean attempts m) (fun _ o => final o) (mk_own false [] [] d).
+Lemma wp_clean : forall attempts hh m d,
+  wp (clean attempts hh m) (fun _ o => final o) (mk_own false [] [] d).
 Proof.
-  intros attempts m d. unfold clean. wpsimpl. split; [|apply final_mk].
+  intros attempts hh m d. unfold clean. wpsimpl. split; [|apply final_mk].
   intros _ c. destruct (negb (names_eqb _ (mnames m))).
   { wpsimpl. split; [reflexivity|apply final_mk]. }
   apply wp_bind_neutral; [apply neutral_reload|]. intro rl.
@@ -376,6 +377,7 @@ Proof.
     + wpsimpl. split; [reflexivity|fin].
     + apply wp_bind_neutral; [apply neutral_clean_loop|]. intros _.
       wpsimpl. split; [reflexivity|fin].
+  - wpsimpl. split; [reflexivity|fin].
   - wpsimpl. split; [reflexivity|fin].
 Qed.
 
@@ -386,10 +388,10 @@ Proof. intros A p f o H. unfold wrap. apply wp_bind. eapply wp_mono; [|exact H].
 Lemma wp_neutral_final : forall A (p : prog A) d, neutral p -> wp p (fun _ o' => final o') (mk_own false [] [] d).
 Proof. intros A p d H. apply H. intros _. apply final_mk. Qed.
 
-Theorem wp_call_prog : forall attempts o m d,
-  wp (call_prog attempts o m) (fun _ o' => final o') (mk_own false [] [] d).
+Theorem wp_call_prog : forall attempts hh o m d,
+  wp (call_prog attempts hh o m) (fun _ o' => final o') (mk_own false [] [] d).
 Proof.
-  intros attempts o m d.
+  intros attempts hh o m d.
   destruct o; destruct m as [mm|]; cbn [call_prog]; try apply final_mk;
     try (apply wp_wrap; first [apply wp_add | apply wp_add_multi | apply wp_clean | apply wp_neutral_final; first [apply neutral_reload | apply neutral_open_reload | apply neutral_close]]).
   - destruct mm; [apply final_mk|]. apply wp_wrap. apply wp_compact_range.
@@ -777,7 +779,7 @@ Lemma c08_finish : forall ow h o m r rest,
   c08_loop ow (finish_events h o m r ++ rest) = c08_loop ow rest.
 Proof. intros ow h o m r rest. unfold finish_events. destruct m; reflexivity. Qed.
 
-Lemma hinv_idle : forall s h m sc, agree s h own0 -> hinv s h {| h_mem := m; h_pc := HIdle; h_script := sc |}.
+Lemma hinv_idle : forall s h m sc hh, agree s h own0 -> hinv s h {| h_mem := m; h_pc := HIdle; h_script := sc; h_hash := hh |}.
 Proof. intros. exact H. Qed.
 
 Lemma winv_step : forall so att w h c w' evs ow,
@@ -793,8 +795,8 @@ Proof.
   - (* idle: a call starts *)
     destruct (h_script hd) as [|o rest].
     { inversion Hs; subst. split; [exact Hw|]. exists ow. split; [exact Ho|reflexivity]. }
-    assert (Hcp := wp_call_prog att o (h_mem hd) []). fold own0 in Hcp.
-    destruct (call_prog att o (h_mem hd)) as [[m r]|q k]; inversion Hs; subst; clear Hs.
+    assert (Hcp := wp_call_prog att (h_hash hd) o (h_mem hd) []). fold own0 in Hcp.
+    destruct (call_prog att (h_hash hd) o (h_mem hd)) as [[m r]|q k]; inversion Hs; subst; clear Hs.
     + split.
       * apply winv_update; [apply Hw|auto| |exact Hw]. apply hinv_idle. exact Hh.
       * exists ow. split; [exact Ho|]. intro rest0. cbn [app c08_loop w_fs]. apply c08_finish.
